@@ -466,13 +466,15 @@ Definition astep (a : astate) (o : pop) : astate :=
 
 Definition arun (ops : list pop) : astate := fold_left astep ops ainit.
 
-(** Premises of the roster theorem, as decidable predicates on the history.
+(** Premises of the roster theorem for a container id [cid], as decidable
+    predicates on the history.
 
     [frame_ok cid]: the other methods of the contract do not write under the
     three roster prefixes of [cid].
 
-    [range_ok]: no vector's pending list grows beyond 65535 keys — beyond it
-    the 2(3)-byte counter stops being monotone in byte order (C14_counter_order). *)
+    [range_ok cid]: no pending vector of [cid] grows beyond 65535 keys —
+    beyond it the 2(3)-byte counter stops being monotone in byte order
+    (C14_counter_order). *)
 Definition roster_pfx (cid k : bytes) : bool :=
   is_prefix (pU :: cid) k || is_prefix (pN :: cid) k || is_prefix (pR :: cid) k.
 
@@ -485,17 +487,17 @@ Definition frame_ok (cid : bytes) (ops : list pop) : bool := forallb (frame_ok_o
 
 Definition counter_max : Z := 65535.
 
-Definition range_ok_op (a : astate) (o : pop) : bool :=
+Definition range_ok_op (cid : bytes) (a : astate) (o : pop) : bool :=
   match o with
-  | OAdd alpha cid vec keys =>
-      negb (add_ok a alpha cid vec keys)
-      || (Z.of_nat (length (pend a cid (vec_byte vec) ++ keys)) <=? counter_max)
+  | OAdd alpha cid' vec keys =>
+      negb (bytes_eqb cid' cid) || negb (add_ok a alpha cid' vec keys)
+      || (Z.of_nat (length (pend a cid' (vec_byte vec) ++ keys)) <=? counter_max)
   | _ => true
   end.
 
-Fixpoint range_ok_from (a : astate) (ops : list pop) : bool :=
+Fixpoint range_ok_from (cid : bytes) (a : astate) (ops : list pop) : bool :=
   match ops with
   | [] => true
-  | o :: ops' => range_ok_op a o && range_ok_from (astep a o) ops'
+  | o :: ops' => range_ok_op cid a o && range_ok_from cid (astep a o) ops'
   end.
-Definition range_ok (ops : list pop) : bool := range_ok_from ainit ops.
+Definition range_ok (cid : bytes) (ops : list pop) : bool := range_ok_from cid ainit ops.
